@@ -65,6 +65,17 @@ _NEG = {ast.Eq: ast.NotEq, ast.NotEq: ast.Eq, ast.In: ast.NotIn, ast.NotIn: ast.
 # N1 canonical expressions
 # ---------------------------------------------------------------------------
 
+def _may_raise_expr(e):
+    """conservative: anything but constants, names, attributes of names and empty displays may raise"""
+    if isinstance(e, (ast.Constant, ast.Name)):
+        return False
+    if isinstance(e, (ast.List, ast.Tuple)) and not e.elts:
+        return False
+    if isinstance(e, ast.Attribute) and isinstance(e.value, ast.Name) and e.value.id == 'self':
+        return False
+    return True
+
+
 class _Canon(ast.NodeTransformer):
     def __init__(self, stats):
         self.stats = stats
@@ -76,6 +87,19 @@ class _Canon(ast.NodeTransformer):
             c = n.operand
             new = ast.Compare(left=c.left, ops=[_NEG[type(c.ops[0])]()], comparators=c.comparators)
             self.stats['canon_not_compare'] = self.stats.get('canon_not_compare', 0) + 1
+            return ast.copy_location(new, n)
+        # De Morgan over comparisons:  not (a == x and b == y)  ->  a != x or b != y   (same evaluation order, same short circuit)
+        if isinstance(n.op, ast.Not) and isinstance(n.operand, ast.BoolOp) and len(n.operand.values) >= 2 and all(
+                (isinstance(v, ast.Compare) and len(v.ops) == 1 and type(v.ops[0]) in _NEG)
+                or (isinstance(v, ast.UnaryOp) and isinstance(v.op, ast.Not)) for v in n.operand.values):
+            vals = []
+            for v in n.operand.values:
+                if isinstance(v, ast.Compare):
+                    vals.append(ast.copy_location(ast.Compare(left=v.left, ops=[_NEG[type(v.ops[0])]()], comparators=v.comparators), v))
+                else:
+                    vals.append(v.operand)
+            new = ast.BoolOp(op=ast.Or() if isinstance(n.operand.op, ast.And) else ast.And(), values=vals)
+            self.stats['canon_de_morgan'] = self.stats.get('canon_de_morgan', 0) + 1
             return ast.copy_location(new, n)
         return n
 
@@ -266,6 +290,37 @@ class _Canon(ast.NodeTransformer):
             if not any(isinstance(x, ast.Name) and x.id in tn for e in n.value.elts for x in ast.walk(e)) and len(tn) == len(n.targets[0].elts):
                 self.stats['canon_unpack_literal'] = self.stats.get('canon_unpack_literal', 0) + 1
                 return [ast.copy_location(ast.Assign(targets=[ast.Name(id=t.id, ctx=ast.Store())], value=e), n) for t, e in zip(n.targets[0].elts, n.value.elts)]
+        # the same with attributes of self among the targets: (self.a, b) = (x, y)  ->  self.a = x; b = y  when the later
+        # values are plain reads (no call, no subscript) of something no earlier target stores
+        if len(n.targets) == 1 and isinstance(n.targets[0], (ast.Tuple, ast.List)) and isinstance(n.value, (ast.Tuple, ast.List)) \
+                and len(n.targets[0].elts) == len(n.value.elts) and not any(isinstance(e, ast.Starred) for e in n.value.elts):
+            def tpath(t):
+                if isinstance(t, ast.Name):
+                    return t.id
+                if isinstance(t, ast.Attribute) and isinstance(t.value, ast.Name) and t.value.id == 'self':
+                    return 'self.' + t.attr
+                return None
+
+            def plain(e):
+                return isinstance(e, ast.Constant) or isinstance(e, ast.Name) or (isinstance(e, (ast.List, ast.Tuple)) and not e.elts) \
+                    or (isinstance(e, ast.Attribute) and isinstance(e.value, ast.Name) and e.value.id == 'self')
+            tps = [tpath(t) for t in n.targets[0].elts]
+            vals = n.value.elts
+            if all(tps) and len(set(tps)) == len(tps) and all(plain(e) for e in vals[1:]) and not _may_raise_expr(vals[0]):
+                reads_ok = True
+                for j, e in enumerate(vals):
+                    rp = tpath(e) if isinstance(e, (ast.Name, ast.Attribute)) else None
+                    if rp is not None and rp in tps[:j]:
+                        reads_ok = False
+                if reads_ok and 'self' not in tps:
+                    self.stats['canon_unpack_literal'] = self.stats.get('canon_unpack_literal', 0) + 1
+                    import copy as _copy
+                    return [ast.copy_location(ast.Assign(targets=[_copy.deepcopy(t)], value=e), n) for t, e in zip(n.targets[0].elts, vals)]
+        # a = b = <constant>  ->  a = <constant>; b = <constant>
+        if len(n.targets) > 1 and isinstance(n.value, ast.Constant) and isinstance(n.value.value, (int, str, bool, type(None), float, bytes)) \
+                and all(isinstance(t, ast.Name) or (isinstance(t, ast.Attribute) and isinstance(t.value, ast.Name)) for t in n.targets):
+            self.stats['canon_chained_constant'] = self.stats.get('canon_chained_constant', 0) + 1
+            return [ast.copy_location(ast.Assign(targets=[t], value=ast.copy_location(ast.Constant(value=n.value.value), n.value)), n) for t in n.targets]
         return n
 
     def visit_If(self, n):
@@ -303,8 +358,9 @@ class _Canon(ast.NodeTransformer):
         #     if G:                                   if G and K == 'a': A
         #         if K == 'a': A            ->        elif G and K == 'b': B
         #         elif K == 'b': B
-        if not n.orelse and len(n.body) == 1 and isinstance(n.body[0], ast.If) and is_pure(n.test) and not isinstance(n.test, ast.Compare):
+        if len(n.body) == 1 and isinstance(n.body[0], ast.If) and is_pure(n.test) and not isinstance(n.test, ast.Compare):
             arms, cur, keys = [], n.body[0], set()
+            final_else = []
             while True:
                 t = cur.test
                 if not (isinstance(t, ast.Compare) and len(t.ops) == 1 and isinstance(t.ops[0], ast.Eq) and isinstance(t.comparators[0], ast.Constant)
@@ -316,10 +372,15 @@ class _Canon(ast.NodeTransformer):
                 if len(cur.orelse) == 1 and isinstance(cur.orelse[0], ast.If):
                     cur = cur.orelse[0]
                 elif cur.orelse:
-                    arms = None
+                    # (with an else: the guard's own else must be the same statements - then every way out of the chain
+                    # and out of the guard ends in them)
+                    final_else = cur.orelse
                     break
                 else:
                     break
+            if arms is not None and (bool(final_else) != bool(n.orelse) or (final_else and
+                                     [ast.dump(x_) for x_ in final_else] != [ast.dump(x_) for x_ in n.orelse])):
+                arms = None
             if arms and len(arms) >= 2 and len(keys) == 1:
                 for a_ in arms:
                     a_.test = ast.copy_location(ast.BoolOp(op=ast.And(), values=[clone(n.test), a_.test]), a_.test)
@@ -1010,6 +1071,30 @@ class Inliner(object):
             static_only = all(isinstance(d, ast.Name) and d.id == 'staticmethod' for d in fn.decorator_list)
             if not static_only or _has(fn.body, (ast.Yield, ast.YieldFrom, ast.FunctionDef, ast.Lambda, ast.Global, ast.Nonlocal)):
                 del self.helpers[nm]
+        # a helper that (directly or through other helpers) calls itself has no finite expansion: it stays a call
+        def callees(fn):
+            out = set()
+            for n in ast.walk(fn):
+                if isinstance(n, ast.Call):
+                    f = n.func
+                    nm = f.attr if isinstance(f, ast.Attribute) else (f.id if isinstance(f, ast.Name) else None)
+                    if nm in self.helpers:
+                        out.add(nm)
+            return out
+        graph = {nm: callees(fn) for nm, (fn, _m) in self.helpers.items()}
+        changed = True
+        reach = {nm: set(v) for nm, v in graph.items()}
+        while changed:
+            changed = False
+            for nm in reach:
+                add = set()
+                for m in reach[nm]:
+                    add |= reach.get(m, set())
+                if not add <= reach[nm]:
+                    reach[nm] |= add
+                    changed = True
+        for nm in [nm for nm in reach if nm in reach[nm]]:
+            del self.helpers[nm]
         self.static = {nm for nm, (fn, _m) in self.helpers.items() if fn.decorator_list}
 
     def _resolve(self, call):
@@ -2215,6 +2300,18 @@ def resolve_function_table(tree, fn, stats):
                 i += 1
                 if not (isinstance(a, ast.Assign) and len(a.targets) == 1 and isinstance(a.targets[0], ast.Name)):
                     continue
+                # `if h is not None: <one leaving statement>` followed by the leaving rest of the block is the same
+                # decision written the other way round:  if h is None: <rest>   then the statement
+                if isinstance(b, ast.If) and not b.orelse and isinstance(b.test, ast.Compare) and len(b.test.ops) == 1 and isinstance(b.test.ops[0], ast.IsNot) \
+                        and isinstance(b.test.left, ast.Name) and b.test.left.id == a.targets[0].id and isinstance(b.test.comparators[0], ast.Constant) \
+                        and b.test.comparators[0].value is None and len(b.body) == 1 and isinstance(b.body[0], (ast.Return, ast.Raise)) \
+                        and isinstance(blk[-1], (ast.Return, ast.Raise)) \
+                        and not any(isinstance(x, ast.Name) and x.id == a.targets[0].id for r_ in blk[i + 1:] for x in ast.walk(r_)):
+                    rest_ = blk[i + 1:]
+                    flipped = ast.copy_location(ast.If(test=ast.copy_location(ast.Compare(left=b.test.left, ops=[ast.Is()], comparators=b.test.comparators), b.test),
+                                                       body=rest_, orelse=[]), b)
+                    blk[i:] = [flipped, b.body[0]]
+                    a, b, c = blk[i - 1], blk[i], blk[i + 1]
                 val, cond = a.value, None
                 if isinstance(val, ast.IfExp) and isinstance(val.orelse, ast.Constant) and val.orelse.value is None and is_pure(val.test):
                     val, cond = val.body, val.test
